@@ -235,12 +235,15 @@ Definition max_ts (es : list entry) : N := fold_right (fun e m => N.max (ets e) 
 (* what the Rust does with the result of a call:
      Must     `?`            : an error ends the operation with Err
      Ignore   `let _ = ..`   : an error is dropped
+     Retire   `let _ = rename(sst, trash)` inside install_version/explicit_unref: as Ignore, but not
+                               issued at all when the manifest edit before it failed (the old
+                               version stays current, nothing is retired)
      Exist    hard_link whose AlreadyExists is tolerated: failing because the target exists is
                                fine, any other (injected) error ends the operation with Err
-     Defer n  `let ret = ..` : the error is kept and returned at the end, the next n calls are
-                               skipped (the rest of the manifest edit and the retirement of the
-                               inputs in compaction_finish), the clean-up still runs *)
-Inductive mode := Must | Ignore | Exist | Defer (n : nat).
+     Defer n  `let ret = ..` : the error is kept and returned at the end, the next n calls (the
+                               rest of the manifest edit in compaction_finish) are skipped, the
+                               clean-up still runs *)
+Inductive mode := Must | Ignore | Retire | Exist | Defer (n : nat).
 Definition prog := list (call * mode).
 Definition must (cs : list call) : prog := map (fun c => (c, Must)) cs.
 Definition calls_of (p : prog) : list call := map fst p.
@@ -256,16 +259,21 @@ Fixpoint run_prog (p : prog) (fault : option nat) (skip : nat) (s : fs) (deferre
       match skip with
       | S k => run_prog p' fault k s deferred          (* not issued *)
       | O =>
-          let injected := match fault with Some O => true | _ => false end in
-          let fault' := match fault with Some (S k) => Some k | _ => None end in
-          match (if injected then None else exec c s) with
-          | Some s' => run_prog p' fault' O s' deferred
-          | None =>
-              match m with
-              | Must => (s, Some EIo)
-              | Ignore => run_prog p' fault' O s deferred
-              | Exist => if injected then (s, Some EIo) else run_prog p' fault' O s deferred
-              | Defer n => run_prog p' fault' n s (Some EIo)
+          match m, deferred with
+          | Retire, Some _ => run_prog p' fault O s deferred      (* not issued *)
+          | _, _ =>
+              let injected := match fault with Some O => true | _ => false end in
+              let fault' := match fault with Some (S k) => Some k | _ => None end in
+              match (if injected then None else exec c s) with
+              | Some s' => run_prog p' fault' O s' deferred
+              | None =>
+                  match m with
+                  | Must => (s, Some EIo)
+                  | Ignore => run_prog p' fault' O s deferred
+                  | Retire => run_prog p' fault' O s deferred
+                  | Exist => if injected then (s, Some EIo) else run_prog p' fault' O s deferred
+                  | Defer n => run_prog p' fault' n s (Some EIo)
+                  end
               end
           end
       end
@@ -288,9 +296,10 @@ Definition all_entries (v : vstate) : list entry := v_mem v ++ concat (v_files v
 Inductive op :=
 | OpWrite (b : list (key * option (list N)))       (* put / del / write(batch): ONE sequence number *)
 | OpFlush                                          (* rollover + one iteration of _memtable_thread *)
-| OpCompact (ins outs : list sname).               (* perform_compaction / perform_garbage_collection
-                                                      with >= 2 inputs (a trivial move touches nothing
-                                                      on disk: apply_moving_compaction) *)
+| OpCompact (gc : bool) (ins outs : list sname).   (* perform_compaction (gc = false) or
+                                                      perform_garbage_collection (gc = true: the upper
+                                                      level is the last one) with >= 2 inputs; a trivial
+                                                      move touches nothing on disk (apply_moving_compaction) *)
 
 Definition batch_entries (v : vstate) (b : list (key * option (list N))) : list entry :=
   map (fun kv => mkE (fst kv) (v_seq v + 1) (snd kv)) b.
@@ -313,38 +322,40 @@ Definition flush_prog (v : vstate) (s : fs) : prog * bool :=
   else (must (p1 ++ [CLink (NTmp x) (NSst x)] ++ mani_apply (CkEdit [x] []) ++
               [CUnlink (NTmp x); CRename (NLog (v_cur v)) (NTrashLog (v_cur v))]), true).
 
-(* perform_compaction: compaction_setup (remove_dir_all of a left-over directory, create_dir),
-   SstMultiBuilder (each output: create_new, writes, sync_all, in turn), compaction_finish:
-   hard_link every output into sst/ (AlreadyExists tolerated), [balance check], manifest edit
-   (-inputs +outputs), install_version -> explicit_unref renames the inputs that are no longer
-   referenced to trash/ (errors ignored), remove_file every output, remove_dir *)
-Definition compact_prog (ins outs : list sname) (s : fs) : prog :=
+(* perform_compaction / perform_garbage_collection: compaction_setup (remove_dir_all of a left-over
+   directory, create_dir), SstMultiBuilder (each output: create_new, writes, sync_all, in turn),
+   compaction_finish: hard_link every output into sst/ (AlreadyExists tolerated), [balance check],
+   manifest edit (-inputs +outputs), remove_file every output, remove_dir.  The inputs that are no
+   longer referenced are renamed to trash/ (errors ignored) by explicit_unref of the old version:
+   in perform_garbage_collection that happens inside install_version, i.e. right after the manifest
+   edit; perform_compaction still holds a snapshot of the old version (for its split hints) until
+   it returns, so there it happens last. *)
+Definition compact_prog (gc : bool) (ins outs : list sname) (s : fs) : prog :=
   let d := ins in
   let eo := enumerate 0 outs in
-  let retire := filter (fun x => negb (mem_sname x outs)) ins in
+  let retire := map (fun x => (CRename (NSst x) (NTrashSst x), Retire)) (filter (fun x => negb (mem_sname x outs)) ins) in
+  let cleanup := must (map (fun ix => CUnlink (NComp d (fst ix))) eo ++ [CRmdir (NCompDir d)]) in
   (if exists_name (NCompDir d) s
    then must (map CUnlink (comp_files d s) ++ [CRmdir (NCompDir d)]) else []) ++
   must [CMkdir (NCompDir d)] ++
   must (flat_map (fun ix => [CCreate (NComp d (fst ix)); CWrite (NComp d (fst ix)) (CkSst (snd ix)); CSync (NComp d (fst ix))]) eo) ++
-  (* a link onto an existing sst/<setsum> fails with EEXIST, which is tolerated: replay skips it *)
+  (* a link onto an existing sst/<setsum> fails with EEXIST, which is tolerated *)
   map (fun ix => (CLink (NComp d (fst ix)) (NSst (snd ix)), Exist)) eo ++
-  [(COpenAppend NMani, Defer (2 + length retire)); (CWrite NMani (CkEdit outs ins), Defer (1 + length retire));
-   (CSync NMani, Defer (length retire))] ++
-  map (fun x => (CRename (NSst x) (NTrashSst x), Ignore)) retire ++
-  must (map (fun ix => CUnlink (NComp d (fst ix))) eo ++ [CRmdir (NCompDir d)]).
+  [(COpenAppend NMani, Defer 2); (CWrite NMani (CkEdit outs ins), Defer 1); (CSync NMani, Defer 0)] ++
+  (if gc then retire ++ cleanup else cleanup ++ retire).
 
 Definition op_prog (v : vstate) (s : fs) (o : op) : prog * bool :=
   match o with
   | OpWrite b => (write_prog v b, true)
   | OpFlush => flush_prog v s
-  | OpCompact ins outs => (compact_prog ins outs s, true)
+  | OpCompact gc ins outs => (compact_prog gc ins outs s, true)
   end.
 
 Definition op_next (v : vstate) (o : op) : vstate :=
   match o with
   | OpWrite b => mkV (v_mem v ++ batch_entries v b) (v_files v) (v_seq v + 1) (v_cur v)
   | OpFlush => mkV [] (apply_edit (v_files v) (CkEdit [sort_entries (v_mem v)] [])) (v_seq v + 1) (v_seq v)
-  | OpCompact ins outs => mkV (v_mem v) (apply_edit (v_files v) (CkEdit outs ins)) (v_seq v) (v_cur v)
+  | OpCompact _ ins outs => mkV (v_mem v) (apply_edit (v_files v) (CkEdit outs ins)) (v_seq v) (v_cur v)
   end.
 
 (* ------------------------------------------------------------------ KeyValueStore::open *)
